@@ -63,6 +63,20 @@ pub fn programs(quick: bool, tags: bool) -> Vec<Program> {
         cons.push(vec![G::Eq(T::Cmp(Tag::Holder, vec![some(&x), y.clone()]), T::Cmp(Tag::Holder, vec![some(&T::I(1)), h.clone()])), G::Neq(h.clone(), T::I(2))]);
         cons.push(vec![G::Neq(T::Cmp(Tag::Holder, vec![some(&x), y.clone()]), T::Cmp(Tag::Holder, vec![some(&T::I(1)), T::I(2)]))]);
     }
+    if !quick {
+        // thorough: every pair of constraint sets as well
+        let singles = cons.clone();
+        for (i, a) in singles.iter().enumerate() {
+            for b in singles.iter().skip(i + 1) {
+                if a.is_empty() || b.is_empty() {
+                    continue;
+                }
+                let mut ab = a.clone();
+                ab.extend(b.iter().cloned());
+                cons.push(ab);
+            }
+        }
+    }
     let mut out = vec![];
     for s0 in &shapes0 {
         for s1 in &shapes1 {
